@@ -2,6 +2,7 @@ from itertools import combinations
 from numpy import zeros, ones, zeros_like, array, union1d, min, median, max, random, log, log2, sum, abs, all, where
 
 from dsw.operation import Monitor
+from dsw import _verif
 
 
 def get_complete_accessor(observed_length, verbose=False):
@@ -337,6 +338,8 @@ def remove_useless(latter_map, threshold, verbose=False):
 
     round_number = 1
     while True:
+        if _verif.ON:
+            _verif.tick("ru_round", size=len(latter_map))
         if verbose:
             print("Check available vertices.")
 
@@ -637,6 +640,8 @@ def approximate_capacity(accessor, tolerance_level=-10, repeats=1, maximum_itera
 
         monitor, queue, last_eigenvalue, current = Monitor(), [], None, 0
         while True:
+            if _verif.ON:
+                _verif.tick("cap_iter", repeat=int(repeat), iteration=int(current))
             eigenvector = zeros_like(last_eigenvector)
             for positions in accessor.T:
                 available = where(positions >= 0)
